@@ -66,7 +66,11 @@ def maker(cfg):
             if i % 2 == 0:
                 em.add(srcs[i])      # repeated additions must not renumber
         mon = event.Monitor(em, trigger=cfg["montrg"])
-        return Harness(mon, flat_ports(mon, *srcs), mon=mon, srcs=srcs, em=em)
+        ports = flat_ports(mon) + flat_ports(*srcs, env="out")
+        # event.Monitor declares `pending` as In although the monitor itself drives it: not an environment input
+        from ..nir2smt import raw
+        ports.env.discard(id(raw(mon.pending)))
+        return Harness(mon, ports, mon=mon, srcs=srcs, em=em)
     return make
 
 
